@@ -31,6 +31,7 @@ type JobSpec struct {
 	MaxPaths   int               `json:"max_paths"`
 	Unwind     int               `json:"unwind"`
 	MaxPreempt int               `json:"max_preempt"`
+	MaxDeviate int               `json:"max_deviate"`
 	TimeoutMs  int               `json:"timeout_ms"`
 	Solver     string            `json:"solver"`
 	NoReplay   bool              `json:"no_replay"` // schedule counterexamples: confirmed by deterministic re-execution
@@ -116,7 +117,7 @@ func expandJobs(specs []JobSpec) ([]Job, error) {
 		var rec func(i int, cur []int64)
 		rec = func(i int, cur []int64) {
 			if i == len(lists) {
-				out = append(out, Job{Harness: s.Harness, Args: append([]int64(nil), cur...), MaxPaths: s.MaxPaths, Unwind: s.Unwind, MaxPreempt: s.MaxPreempt, TimeoutMs: s.TimeoutMs, Solver: s.Solver})
+				out = append(out, Job{Harness: s.Harness, Args: append([]int64(nil), cur...), MaxPaths: s.MaxPaths, Unwind: s.Unwind, MaxPreempt: s.MaxPreempt, MaxDeviate: s.MaxDeviate, TimeoutMs: s.TimeoutMs, Solver: s.Solver})
 				return
 			}
 			for _, v := range lists[i] {
